@@ -21,6 +21,11 @@ var c10Routes = []string{"/s", "/s/", "/s/t", "/s/?t", "/{p}", "/s/{p}", "/{m: *
 var c10RegMethods = []string{"GET", "POST", "*", "GET,POST"}
 var c10HdrSets = [][]string{{}, {"X-K", "v"}}
 var c10Paths = []string{"/s", "//s", "/s/", "/s//", "/s/t", "/s/?t", "/q/?r", "/q", "/q/r", "/%73", "s", "", "/", "/s/t/", "/q/", "/{p}/t", "/{p}", "/s/{p}", "/{m: **}", "/x/t", "/{m: **}/t", "/x/y/t", "/S", "/s/T"}
+
+// c10ProbeMethods: two registered methods, a lower-case spelling of one (an unknown method for the router, as
+// any other token) and an unknown token
+var c10ProbeMethods = []string{"GET", "POST", "get", "BREW"}
+
 var c10ReqHdrs = []map[string]string{{}, {"X-K": "v"}}
 
 const c10MaxRegs = 4
@@ -72,7 +77,7 @@ func c10ApplyI(p *route.Parser, ops []c10Op, interleave bool) (w *c10World, ok b
 	}
 	for oi, op := range ops {
 		if interleave && oi > 0 {
-			for _, method := range []string{"GET", "POST", "BREW"} {
+			for _, method := range c10ProbeMethods {
 				for _, path := range c10Paths {
 					for _, hdr := range c10ReqHdrs {
 						c10One(w, method, path, hdr)
@@ -246,7 +251,7 @@ func c10Run(r *core.Run) {
 					hasStatic = true
 				}
 			}
-			for _, method := range []string{"GET", "POST", "BREW"} {
+			for _, method := range c10ProbeMethods {
 				for _, path := range c10Paths {
 					for _, hdr := range c10ReqHdrs {
 						l.Evals++
@@ -273,7 +278,7 @@ func c10Run(r *core.Run) {
 				// the same history with the probe set served after every operation
 				wi, oki, _ := c10ApplyI(p, hops, true)
 				if oki {
-					for _, method := range []string{"GET", "POST", "BREW"} {
+					for _, method := range c10ProbeMethods {
 						for _, path := range c10Paths {
 							for _, hdr := range c10ReqHdrs {
 								l.Evals++
